@@ -239,7 +239,7 @@ func checkPollDeadline(c *Ctx) {
 				switch {
 				case last == nil:
 					R.FailPath("R08.5", key, call.Pos(), fn, "the capture read is reached without a read deadline armed on this path", ip.Desc)
-				case last.Op == "call" && last.Name == "(time.Time).Add" && len(last.Args) == 2 && last.Args[0].Op == "call" && last.Args[0].Name == "time.Now" && last.Args[1].StripConv().String() == want:
+				case last.Op == "call" && last.Name == "(time.Time).Add" && len(last.Args) == 2 && last.Args[0].Op == "call" && last.Args[0].Name == "time.Now" && pollBounded(last.Args[1], want):
 					R.OK("R08.5", key, lastPos, fn, "read deadline = time.Now().Add("+want+")")
 				default:
 					R.FailPath("R08.5", key, lastPos, fn, "the read deadline armed before the capture read is "+last.String()+", not time.Now().Add("+want+"): one poll no longer ends within the poll interval the engine asked for, so timeouts and cancellations are noticed late", ip.Desc)
@@ -249,6 +249,21 @@ func checkPollDeadline(c *Ctx) {
 		}
 	}
 	R.Floor("R08.5:polls", n, 4)
+}
+
+// pollBounded: the duration is the poll parameter itself, or an expression over it and constants only (a cap, a margin) –
+// nothing read from the driver's configuration.
+func pollBounded(d *core.Term, want string) bool {
+	has := false
+	for _, l := range d.Leaves() {
+		switch {
+		case l == want:
+			has = true
+		case strings.HasPrefix(l, "recv") || strings.HasPrefix(l, "param:") || strings.HasPrefix(l, "free:") || strings.HasPrefix(l, "global:") || strings.HasPrefix(l, "@"):
+			return false
+		}
+	}
+	return has
 }
 
 func runC08(c *Ctx) {
